@@ -542,6 +542,7 @@ class Seq(Family):
         seen = set()
 
         def emit(rops):
+            rops = self.adapt(rops)
             key = _tuple(rops)
             if key in seen:
                 return None
@@ -599,7 +600,10 @@ class Seq(Family):
             while len(rops) < ln:
                 rops.append(rand_op(rng, self.clean or rng.random() < 0.75))
             pool = POOL if rng.random() < 0.8 else [rng.choice([1, 2, 3]) for _ in range(3)] + [5]
-            yield [pool, PROBE, rops]
+            yield [pool, PROBE, self.adapt(rops)]
+
+    def adapt(self, rops):
+        return rops
 
     def run_impl(self, case):
         pool, probe, rops = case
@@ -640,6 +644,11 @@ class SeqX(Seq):
     clean = False
     budget_share = 1.0
     known_findings_uncounted = True
+
+    def adapt(self, rops):
+        # the finding stratum stays outside a DataCollection: after an abusive call the collection's link
+        # manager (not modelled, C03) makes removed coordinate ids reachable by name again
+        return ["register" if r == "attach" else r for r in rops]
 
 
 PROP = Property(
